@@ -1091,11 +1091,12 @@ func genServe(p *pkg, fields []string) string {
 	b.WriteString("def lookupNames : List (Nat × String) := " + x.lookups.lean() + "\n\n")
 	b.WriteString("def rawNames : List (Nat × String) := " + x.raws.lean() + "\n\n")
 	// codes the obligations refer to by name
-	for _, n := range []string{"Next", "NotFound", "MethodNotAllowed"} {
-		if i, ok := x.what.ids[n]; ok {
-			fmt.Fprintf(&b, "def what%s : Nat := %d\n", n, i)
+	for i, n := range []string{"Next", "NotFound", "MethodNotAllowed", "call handler", "SetLifecycleHeaders", "WriteHeader", "Write"} {
+		dn := strings.ReplaceAll(strings.Title(n), " ", "")
+		if id, ok := x.what.ids[n]; ok {
+			fmt.Fprintf(&b, "def what%s : Nat := %d\n", dn, id)
 		} else {
-			fmt.Fprintf(&b, "def what%s : Nat := 1000000\n", n)
+			fmt.Fprintf(&b, "def what%s : Nat := %d\n", dn, 1000000+i)
 		}
 	}
 	for _, n := range []string{"Request", "Response", "handlers", "router", "index"} {
